@@ -2,6 +2,7 @@ package vprog
 
 import (
 	"encoding/base64"
+	"flag"
 	"io"
 	"os"
 	"testing"
@@ -10,6 +11,12 @@ import (
 )
 
 var in *Interp
+
+// the flags many projects declare for refreshing golden files; go-snaps must not react to them
+var (
+	_ = flag.Bool("update", false, "update golden files (host project's own flag)")
+	_ = flag.Bool("u", false, "short form")
+)
 
 func TestMain(m *testing.M) {
 	if p := os.Getenv("VERIF_DESCRIBE"); p != "" {
